@@ -181,6 +181,18 @@ def run_case(case, tape, ctx):
     if s.client_id != cid:
         viol.add('C16-3', 'client-id-not-set',
                  f'client id {cid} of {cfg["max_logins"]} was refused')
+    # the default groups (one per login, created on the server by their
+    # owners) are node ids too: each lies in its owner's id range, so that
+    # no client is ever handed the id of another client's default group
+    for c, g in enumerate(getattr(s, '_default_groups', [])):
+        if (g.node_id >> 26) != c:
+            viol.add('C16-4', 'default-group-outside-owner-range',
+                     f'default group of client {c} has node id {g.node_id}, '
+                     f'which lies in the id range of client '
+                     f'{g.node_id >> 26} (ids are handed out as '
+                     f'counter | client << 26)')
+            break
+    stats['default-groups-checked'] = len(getattr(s, '_default_groups', []))
     allocs = [s._control_bus_allocator, s._audio_bus_allocator,
               s._buffer_allocator]
     names = ['control', 'audio', 'buffer']
@@ -261,10 +273,16 @@ def run_case(case, tape, ctx):
             elif kind == 'free_none':
                 addr = None
             else:
+                # an address the client does not own: anywhere in the
+                # partition, a little below it (another client's indices,
+                # the reserved ones) or a little above it
                 span = p.hi - p.lo
-                addr = p.lo + op[2] % span
-                if addr in p.live:
+                addr = p.lo - 8 + op[2] % (span + 16)
+                if addr in p.live or addr < 0:
                     continue
+                if not p.lo <= addr < p.hi:
+                    stats['free-outside-partition'] = stats.get(
+                        'free-outside-partition', 0) + 1
             try:
                 a.free(addr)
             except Exception as e:
